@@ -429,10 +429,10 @@ func (f *Frame) appendCall(c *ssa.CallCommon, args []Val, in ssa.Instruction) Va
 	newCap := g.freshConst("appcap", g.idxSort())
 	g.assumeDef(newCap, g.icmp("<=", newLen, newCap, true))
 	if g.BV {
-		g.assumeDef(newCap, app("bvsle", newCap, "(_ bv4611686018427387904 64)"))
+		g.assumeDef(newCap, app("bvsle", newCap, "(_ bv281474976710656 64)"))
 		g.assumeDef(newLen, app("bvsge", newLen, app("s_len", s.S))) // lengths do not wrap (memory is finite)
 	} else {
-		g.assumeDef(newCap, app("<=", newCap, "4611686018427387904"))
+		g.assumeDef(newCap, app("<=", newCap, "281474976710656"))
 	}
 	p := f.newObjID()
 	pn := g.freshConst("append", "Ptr")
